@@ -57,9 +57,20 @@ def memo_ok(ctx, ce, attr, W):
     except Exception as ex:
         return False, 'writer %s not understood (%s)' % (direct[0], ex)
     attr_t = ('attr', SELF, attr)
-    hit = ('exit', 'return', attr_t, ())
+    isnone = ('cmp', 'is', attr_t, ('c', None))
     eff = fn[2]
-    ok = (len(eff) == 1 and eff[0][0] == 'if' and eff[0][1] == ('cmp', 'is', attr_t, ('c', None)) and tuple(eff[0][3]) == (hit,))
+    # normal form of   if self.attr is None: <compute; self.attr = V>   return self.attr :
+    #   if(attr is None, <compute>, ())  ;  exit(return, V if attr is None else attr, self{attr=V} if attr is None else self)
+    ok = False
+    if len(eff) == 2 and eff[0][0] == 'if' and eff[0][1] == isnone and not eff[0][3] and eff[1][0] == 'exit' and eff[1][1] == 'return':
+        v = eff[1][2]
+        st = dict((r[1], r[2]) for r in eff[1][3])
+        ok = (v[0] == 'ite' and v[1] == isnone and v[3] == attr_t
+              and list(st) == ['self'] and st['self'][0] == 'ite' and st['self'][1] == isnone and st['self'][3] == SELF
+              and T.get_attr(st['self'][2], attr) == v[2])
+    elif len(eff) == 1 and eff[0][0] == 'exit' and eff[0][1] == 'return':
+        v = eff[0][2]
+        ok = v[0] == 'ite' and v[1] == isnone and v[3] == attr_t
     if not ok:
         return False, 'no "if self.%s is not None: return self.%s" guard' % (attr, attr)
     others = (ce.eff[direct[0]].exposed - {attr}) & (W - {attr})
